@@ -12,6 +12,7 @@ CONSTANTS
   DelFaultKinds = {}
   StreamBatch = 1
   StreamRestarts = FALSE
+  ResetOnRestart = TRUE
   GenHist = FALSE
 INIT Init
 NEXT Next
